@@ -882,6 +882,12 @@ class KafkaClient(object):
                 self.reset_consumer_group_metadata(consumer_group)
                 if fail_on_error:
                     raise
+            except BrokerResponseError:
+                # Any other error code: hand the response to the caller that
+                # asked to see every response (fail_on_error=False) so it can
+                # tell which payloads were acknowledged and which failed.
+                if fail_on_error:
+                    raise
 
             if callback is not None:
                 out.append(callback(resp))
